@@ -24,7 +24,7 @@ CRASHY = False
 RUN_TIMEOUT = 300
 NO_SHRINK = {'program', 'prog', 'dim'}
 POOL_SEED = 20250927
-NPROG = {'quick': 15, 'thorough': 120}
+NPROG = {'quick': 17, 'thorough': 120}
 
 PROPS = {
     'C03': dict(
@@ -151,6 +151,17 @@ HANDCRAFTED = [
     dict(arrays=['f', 'g', 'k'], env=dict(thresh=[0.0]), groups=[
         _g(eqs=[['TLoop', 'f', ['g'], 1.0]]),
         _g(label='L1', iterate=1, min=2, max=3, eqs=[['TLoop', 'f', ['g', 'k'], 2.0], ['TFull', 'k', ['f', 'g'], 1.0], ['TConv', 'f', None, 1.0]])]),
+    # a parent that asks for the update, whose last sub-group asks for it too but is conditional; particles moved inside the parent
+    dict(arrays=['f', 'g'], groups=[
+        _g(update_nnps=1, sub=[
+            _g(label='La', eqs=[['TMove', 'f', None, 0.0]]),
+            _g(label='Lb', cond=1, update_nnps=1, eqs=[['TInit', 'g', None, 1.0]])]),
+        _g(label='L1', eqs=[['TLoop', 'f', ['f', 'g'], 2.0], ['TLoop', 'g', ['f'], 1.0]])]),
+    # a group without equations ahead of groups with a condition, pre and post
+    dict(arrays=['f'], groups=[
+        _g(cond=1, pre=1, eqs=[]),
+        _g(label='L1', cond=1, pre=1, post=1, eqs=[['TInit', 'f', None, 2.0]]),
+        _g(label='L2', cond=1, post=1, eqs=[['TPost', 'f', None, 3.0], ['TReduce', 'f', None, 1.0]])]),
     # destinations appearing first in later equations, no-source and sourced equations mixed, several py_initialize / reduce per group
     dict(arrays=['f', 'g', 'k'], groups=[
         _g(eqs=[['TLoopNoSrc', 'g', None, 1.0], ['TLoop', 'f', ['k', 'g'], 2.0], ['TPyInit', 'g', None, 3.0], ['TReduce', 'f', None, 1.0],
